@@ -184,6 +184,10 @@ class BodyInfo:
         if k in ("copy", "move"):
             return self.place(op["pl"], val)
         if k == "const":
+            if "prom" in op:
+                v = promoted_value(self.fn.facts, op["prom"][0], op["prom"][1])
+                if v is not None:
+                    return v
             if "fn" in op:
                 return ("fn", op["fn"]["def"])
             if "int" in op:
@@ -220,3 +224,28 @@ class BodyInfo:
     def call_value(self, b, t, val):
         args = [self.operand(a, val) for a in t["args"]]
         return mk_call(b, t["callee"], args, t.get("argtys"))
+
+
+_prom_cache = {}
+
+
+def promoted_value(facts, fnpath, idx):
+    """Value of a promoted constant: evaluate its (straight-line) MIR body symbolically."""
+    key = (id(facts), fnpath, idx)
+    if key in _prom_cache:
+        return _prom_cache[key]
+    v = None
+    f = facts.fns.get(fnpath)
+    if f is not None:
+        proms = f.f.get("promoted") or []
+        if idx < len(proms):
+            from mir import Fn
+            pf = Fn(proms[idx], facts)
+            bi = BodyInfo(pf)
+            if 0 not in bi.dyn and all(b["term"]["k"] in ("return", "goto") for b in pf.blocks):
+                v = bi.local_value(0, {})
+                from expr import mentions
+                if mentions(v, lambda x: x[0] in ("unk", "param")):
+                    v = None
+    _prom_cache[key] = v
+    return v
